@@ -347,3 +347,188 @@ func kaClosePath(c *Ctx, recv string, bad func(string, ...any)) (acts, desc []st
 	}
 	return acts, desc
 }
+
+// Lock discipline behind "the keep-alive of one session does not depend on what the handlers of another session
+// do" (KeepAlive.ping_never_waits_for_a_handler): Server.mu / Client.mu is the one lock shared by ALL sessions of a
+// Server / Client value, and every keep-alive ping takes it (handleSend -> sendingMethodHandler) AFTER its deadline
+// has started to run. Recorded: the statements of the ping path's critical section, and every call made while the
+// shared lock is held that reaches a user-supplied function (an option `opts.…Handler`, a feature's `handler`),
+// directly or through functions of the package (by name, transitively).
+func init() { reg(keepaliveLockExtract) }
+
+func keepaliveLockExtract(c *Ctx) {
+	shared := map[string]bool{"s.mu": true, "ss.server.mu": true, "c.mu": true, "cs.client.mu": true}
+	owners := map[string]bool{"Server": true, "ServerSession": true, "Client": true, "ClientSession": true}
+	isUser := func(fun ast.Expr) bool {
+		e := c.Src(fun)
+		return (strings.Contains(e, "opts.") && strings.HasSuffix(e, "Handler")) || e == "handler" || strings.HasSuffix(e, ".handler")
+	}
+	calleeName := func(fun ast.Expr) string {
+		switch f := fun.(type) {
+		case *ast.Ident:
+			return f.Name
+		case *ast.SelectorExpr:
+			return f.Sel.Name
+		case *ast.IndexExpr:
+			if id, ok := f.X.(*ast.Ident); ok {
+				return id.Name
+			}
+		}
+		return ""
+	}
+	var decls []*ast.FuncDecl
+	for _, f := range c.load("mcp") {
+		for _, d := range f.Decls {
+			if fd, ok := d.(*ast.FuncDecl); ok && fd.Body != nil {
+				decls = append(decls, fd)
+			}
+		}
+	}
+	// functions of the package that reach a user-supplied function
+	reaches := map[string]bool{}
+	for changed := true; changed; {
+		changed = false
+		for _, fd := range decls {
+			if reaches[fd.Name.Name] {
+				continue
+			}
+			ast.Inspect(fd.Body, func(n ast.Node) bool {
+				if ce, ok := n.(*ast.CallExpr); ok && (isUser(ce.Fun) || reaches[calleeName(ce.Fun)]) {
+					reaches[fd.Name.Name] = true
+				}
+				return !reaches[fd.Name.Name]
+			})
+			changed = changed || reaches[fd.Name.Name]
+		}
+	}
+	lockCall := func(st ast.Stmt, method string) (string, bool) {
+		var ce *ast.CallExpr
+		switch s := st.(type) {
+		case *ast.ExprStmt:
+			ce, _ = s.X.(*ast.CallExpr)
+		case *ast.DeferStmt:
+			ce = s.Call
+		}
+		if ce == nil {
+			return "", false
+		}
+		sel, ok := ce.Fun.(*ast.SelectorExpr)
+		if !ok || sel.Sel.Name != method || !shared[c.Src(sel.X)] {
+			return "", false
+		}
+		return c.Src(sel.X), true
+	}
+	var userCalls []string
+	regions := 0
+	var scan func(name string, stmts []ast.Stmt, held bool) bool
+	scan = func(name string, stmts []ast.Stmt, held bool) bool {
+		for _, st := range stmts {
+			if _, ok := lockCall(st, "Lock"); ok {
+				if _, isDefer := st.(*ast.DeferStmt); !isDefer {
+					held = true
+					regions++
+				}
+				continue
+			}
+			if _, ok := lockCall(st, "Unlock"); ok {
+				if _, isDefer := st.(*ast.DeferStmt); !isDefer {
+					held = false
+				}
+				continue
+			}
+			if held {
+				ast.Inspect(st, func(n ast.Node) bool {
+					if _, ok := n.(*ast.FuncLit); ok {
+						return false // defined here, not called here (a literal called at once is not used in these files)
+					}
+					if _, ok := n.(*ast.GoStmt); ok {
+						return false // runs in another goroutine, without the lock
+					}
+					if ce, ok := n.(*ast.CallExpr); ok && (isUser(ce.Fun) || reaches[calleeName(ce.Fun)]) {
+						userCalls = append(userCalls, name+": "+c.Src(ce.Fun))
+					}
+					return true
+				})
+				continue
+			}
+			// not held: lock regions may be nested in compound statements
+			switch s := st.(type) {
+			case *ast.BlockStmt:
+				scan(name, s.List, false)
+			case *ast.IfStmt:
+				scan(name, s.Body.List, false)
+				if b, ok := s.Else.(*ast.BlockStmt); ok {
+					scan(name, b.List, false)
+				}
+			case *ast.ForStmt:
+				scan(name, s.Body.List, false)
+			case *ast.RangeStmt:
+				scan(name, s.Body.List, false)
+			case *ast.SwitchStmt:
+				for _, cc := range s.Body.List {
+					scan(name, cc.(*ast.CaseClause).Body, false)
+				}
+			case *ast.TypeSwitchStmt:
+				for _, cc := range s.Body.List {
+					scan(name, cc.(*ast.CaseClause).Body, false)
+				}
+			case *ast.SelectStmt:
+				for _, cc := range s.Body.List {
+					scan(name, cc.(*ast.CommClause).Body, false)
+				}
+			}
+		}
+		return held
+	}
+	for _, fd := range decls {
+		file := c.Fset.Position(fd.Pos()).Filename
+		if r := recvName(fd); owners[r] || strings.HasSuffix(file, "/server.go") || strings.HasSuffix(file, "/client.go") {
+			scan(r+"."+fd.Name.Name, fd.Body.List, false)
+			ast.Inspect(fd.Body, func(n ast.Node) bool { // closures of these methods are scanned as functions of their own
+				if fl, ok := n.(*ast.FuncLit); ok {
+					scan(r+"."+fd.Name.Name+".func", fl.Body.List, false)
+				}
+				return true
+			})
+		}
+	}
+	sort.Strings(userCalls)
+	if userCalls == nil {
+		userCalls = []string{}
+	}
+	c.Fact("keepalive.shared_mu.user_calls_under_lock", userCalls)
+	c.Fact("keepalive.shared_mu.regions", regions)
+	// the critical section of the ping path
+	for _, r := range []string{"ServerSession", "ClientSession"} {
+		var body []string
+		if fd := c.Func("mcp", r, "sendingMethodHandler"); fd != nil && fd.Body != nil {
+			for _, st := range fd.Body.List {
+				body = append(body, c.Src(st))
+			}
+		} else {
+			c.Errf("keepalive: %s.sendingMethodHandler not found", r)
+		}
+		c.Fact("keepalive.ping_path.lock."+r, body)
+	}
+	// and who calls it on the way of a ping: handleSend
+	var hs []string
+	for _, fd := range decls {
+		if fd.Name.Name != "handleSend" {
+			continue
+		}
+		ast.Inspect(fd.Body, func(n ast.Node) bool {
+			if ce, ok := n.(*ast.CallExpr); ok && strings.HasSuffix(c.Src(ce.Fun), "sendingMethodHandler") {
+				hs = append(hs, c.Src(ce))
+			}
+			return true
+		})
+	}
+	c.Fact("keepalive.ping_path.handleSend", hs)
+
+	var b strings.Builder
+	fmt.Fprintf(&b, "namespace Generated.KeepAlive\n")
+	fmt.Fprintf(&b, "/-- calls made while Server.mu / Client.mu (shared by all sessions, taken by every keep-alive ping) is held that reach a\nuser-supplied function, `<function>: <callee>`; %d lock regions of mcp/server.go and mcp/client.go scanned -/\n", regions)
+	fmt.Fprintf(&b, "def userCallsUnderSharedLock : List String := %s\n", LeanStrList(userCalls))
+	fmt.Fprintf(&b, "end Generated.KeepAlive\n")
+	c.Lean["KeepAliveLockGen"] = b.String()
+}
